@@ -69,18 +69,22 @@ pub fn run(ctx: &Ctx, out: &mut CaseOut) {
                 return;
             }
         };
-        let base: Vec<Option<(Option<Solution<I>>, String)>> = with_program(&l0, || {
+        let base: Vec<Option<(Option<Solution<I>>, String, bool)>> = with_program(&l0, || {
             w.goals
                 .iter()
                 .map(|(g, e, _)| {
                     let p = lower_and_peel(&l0, g, e).ok()?;
                     let db = FaultDb::new(&*l0.program, solver_name(&choice));
                     db.budget.set(300_000);
-                    let mut s = choice.into_solver();
-                    match solve(&mut *s, &db, &p.goal) {
+                    let is_slg = solver_name(&choice) == "slg";
+                    let mut slg_s = chalk_engine::solve::SLGSolver::<I>::new(10, None);
+                    let mut other = choice.into_solver();
+                    let o = if is_slg { solve(&mut slg_s, &db, &p.goal) } else { solve(&mut *other, &db, &p.goal) };
+                    match o {
                         Outcome::Answer(a) => {
                             let d = disp(&a);
-                            Some((a, d))
+                            let sub = is_slg && slg_subsumed_answers(&mut slg_s);
+                            Some((a, d, sub))
                         }
                         _ => None,
                     }
@@ -97,7 +101,7 @@ pub fn run(ctx: &Ctx, out: &mut CaseOut) {
             };
             with_program(&l, || {
                 for (gi, (g, e, _)) in w.goals.iter().enumerate() {
-                    let (ba, bd) = match &base[gi] {
+                    let (ba, bd, bsub) = match &base[gi] {
                         Some(x) => x,
                         None => continue,
                     };
@@ -119,6 +123,8 @@ pub fn run(ctx: &Ctx, out: &mut CaseOut) {
                     if let Outcome::Answer(a) = o {
                         let d = disp(&a);
                         if &d != bd {
+                            let asub = is_slg && slg_subsumed_answers(&mut slg_s);
+                            let order_sig = if is_slg { slg_order_signature(&d, asub, bd, *bsub) } else { None };
                             let is_f12 = solver_name(&choice) == "slg" && ((trivial_unique(&a) && ba.as_ref().map_or(false, |s| s.is_ambig())) || (trivial_unique(ba) && a.as_ref().map_or(false, |s| s.is_ambig())));
                             // F11 loses answers depending on the order in which the cycle is entered; the original program may
                             // have lost it too, so either side being `None` with a stale table observed on this side counts
@@ -128,7 +134,7 @@ pub fn run(ctx: &Ctx, out: &mut CaseOut) {
                             } else if f11 {
                                 Some("slg:stale-delayed-answer-table")
                             } else {
-                                None
+                                order_sig
                             };
                             out.violation(sig, format!("{}: `{}` on the original program but `{}` after reordering items", solver_name(&choice), bd, d), detail(&w.text, g, &choice).set("permuted_program", ptext.as_str()).set("original_answer", bd.as_str()).set("permuted_answer", d.as_str()));
                         } else {
